@@ -500,6 +500,49 @@ pub fn sets(ctx: &Ctx) -> Vec<CaseSet> {
             observe(rep, t.as_bytes(), &q, false, Ctxt::Free, "multibyte-after-error-prefix");
         }),
     ));
+    // long tokens: a multi-byte character (or an ill-formed sequence) straddling the
+    // offsets at which buffers of 128 / 256 / 4096 / 8192 bytes fill up, with an escape
+    // before it so that the copying path (scratch buffer) is taken
+    out.push(CaseSet::new(
+        "long-tokens-across-buffer-boundaries",
+        ctx.size(3_000, 200_000),
+        Box::new(move |rep, rng, _| {
+            let boundary = *rng.pick(&[128usize, 256, 512, 1024, 4096, 8192]);
+            let at = boundary - rng.below(5); // the sequence starts 0..4 bytes before the boundary
+            let classes = seq_classes();
+            let (class, seq) = &classes[rng.below(classes.len())];
+            let invalid = std::str::from_utf8(seq).is_err();
+            let (kind, dialect) = *rng.pick(&[("string", 1u8), ("string", 2), ("symbol", 0), ("keyword", 0), ("string-no-escape", 0)]);
+            let mut input: Vec<u8> = Vec::new();
+            match kind {
+                "string" => {
+                    input.push(b'"');
+                    input.extend_from_slice(if dialect == 1 { b"\\x41;" } else { b"\\101" });
+                }
+                "string-no-escape" => input.push(b'"'),
+                "keyword" => input.extend_from_slice(b"#:k"),
+                _ => input.push(b's'),
+            }
+            let fill = *rng.pick(&[b'a', b'z', b'-']);
+            while input.len() < at {
+                input.push(fill);
+            }
+            input.extend_from_slice(seq);
+            input.extend_from_slice(b"tail");
+            if kind.starts_with("string") {
+                input.push(b'"');
+            }
+            if rng.bool() {
+                input.extend_from_slice(b" next");
+            }
+            let still_invalid = invalid && std::str::from_utf8(&input).is_err();
+            let q = q_for(dialect, rng);
+            rep.count(&format!("long-token:{}:{}", kind, if still_invalid { "illformed" } else { "wellformed" }));
+            rep.max("max_long_token", input.len() as u64);
+            let _ = class;
+            observe(rep, &input, &q, still_invalid, Ctxt::InToken, "long-token");
+        }),
+    ));
     out.push(CaseSet::new("escape-multibyte-alignment", ctx.size(60_000, 4_500_000), Box::new(move |rep, rng, _| alignment_case(rep, rng))));
 
     // random corrupted soup (no demand, observation only)
